@@ -43,7 +43,8 @@ PROPS["C03"]["level_note"] = PROPS["C03"]["level_note"].replace(
     "C03Catable scope: NPOSTFIX = NDIRECT = 0; one CreateBackwardReferences call per meta-block; the chain's BlockOK (the "
     "ring buffer holds the member's text) and OpsOK; lgwin <= 30. Not covered: the literal-context reason for storing the "
     "first two bytes (it concerns the entropy coder of quality >= 4, whose writers are C01MetaBlockFull's wmbi theorems "
-    "under the cmdOK/lockstep hypotheses delivered here for the foreign state - the composition line is not written); "
+    "whose command hypotheses cmdOK/lockstep/faithful are delivered here for the foreign state (catable_block_faithful; "
+    "copy_len() >= 2 is not exported by the chain) - the composition line is not written); "
     "re-reading a compressed meta-block at a different BIT offset after the concatenator's shift (concat_bits gives the "
     "bit string; the RFC reader of C01MetaBlock takes the offset only for stored blocks' alignment, not proved "
     "offset-independent); quality 0/1 (fragment compressors: own last-distance state, no dictionary) and 10/11 "
